@@ -283,8 +283,24 @@ def gen_mutate(rng, profile):
                     base = [["k", nm] if isinstance(nm, str) else ["i", nm] for nm in ll]
                     inner = [["k", rng.choice(list(lst[j].keys()))]] if isinstance(lst[j], dict) and lst[j] else \
                         ([["i", 0]] if isinstance(lst[j], list) and lst[j] else [["k", "a"]])
-                    script = [["h.new", 0, base + [["i", j]], 0], ["h.new", 1, base + [["i", rng.randrange(0, j)]], 0], ["h.pop", 1, ["none"]],
-                              ["h.mpop", 0, inner], ["h.data", 0]]
+                    vv = rng.random()
+                    if vv < 0.4:
+                        script = [["h.new", 0, base + [["i", j]], 0], ["h.new", 1, base + [["i", rng.randrange(0, j)]], 0], ["h.pop", 1, ["none"]],
+                                  ["h.mpop", 0, inner], ["h.data", 0]]
+                    elif vv < 0.7:
+                        # … then climbing from a Match below the shifted item: the parent step leads to the node the
+                        # Match was found in, not to what now sits at its old index
+                        deep = base + [["i", j]] + (inner if isinstance(lst[j], (dict, list)) and lst[j] else [])
+                        script = [["h.new", 0, deep, 0], ["h.new", 1, base + [["i", rng.randrange(0, j)]], 0], ["h.pop", 1, ["none"]],
+                                  ["h.nested", 2, 0, rng.choice([[["par"]], [["par"], ["par"]], [["par"], ["gwc"]]]), 0], ["h.data", 2]]
+                        live.add(2)
+                    else:
+                        # a Match found through a negative index, the list then shrunk below it through other matches:
+                        # its entry no longer exists (PopError, or the default), nothing else may be removed
+                        n = len(lst)
+                        script = [["h.new", 0, base + [["i", -n]], 0], ["h.new", 1, base + [["i", n - 1]], 0], ["h.pop", 1, ["none"]],
+                                  rng.choice([["h.pop", 0, ["none"]], ["h.pop", 0, ["val", ["new", "dflt"]]], ["h.del", 0], ["h.assign", 0, ["new", 7]]]),
+                                  ["h.data", 0]]
             live.update({0, 1})
             nh = 1
     prev_paths = []
